@@ -319,6 +319,21 @@ impl<'a, T: Read + Write + Seek> PointCloudWriter<'a, T> {
             }
         }
 
+        // Limits of float types must be numbers and the minimum must not exceed the maximum
+        for record in prototype {
+            let (min, max) = match record.data_type {
+                RecordDataType::Single { min, max } => (min.map(f64::from), max.map(f64::from)),
+                RecordDataType::Double { min, max } => (min, max),
+                _ => (None, None),
+            };
+            let unordered = matches!((min, max), (Some(min), Some(max)) if min > max);
+            if unordered || min.is_some_and(f64::is_nan) || max.is_some_and(f64::is_nan) {
+                Error::invalid(
+                    "The limits of a float type must be numbers with minimum <= maximum",
+                )?
+            }
+        }
+
         // Row & column check
         if let Some(record) = get(RecordName::RowIndex) {
             match record.data_type {
